@@ -29,12 +29,13 @@ _real = {
 
 
 class _Node:
-    __slots__ = ('kind', 'data', 'ino')
+    __slots__ = ('kind', 'data', 'ino', 'mtime')
 
     def __init__(self, kind, ino):
         self.kind = kind          # 'dir' | 'file'
         self.data = bytearray() if kind == 'file' else None
         self.ino = ino
+        self.mtime = 0            # logical seconds; see SimFS.touch
 
 
 class Fault:
@@ -81,6 +82,15 @@ class SimFS:
         self._mounted = False
         self.seam_events = 0
         self.guard_root = None     # directory of the tree under test (escape detection)
+        # logical modification time: 'frozen' = every write happens within the same second (the worst case for anything that
+        # keys on mtime), 'ticking' = each modification is one second later than the previous one
+        self.mtime_mode = plan.get('mtime', 'frozen')
+        self.clock = 0
+
+    def touch(self, node):
+        if self.mtime_mode == 'ticking':
+            self.clock += 1
+        node.mtime = self.clock
 
     # ------------------------------------------------------------------ helpers
     def bump(self, key, n=1):
@@ -146,6 +156,7 @@ class SimFS:
             self._ino += 1
             n = self.nodes[p] = _Node('file', self._ino)
         n.data = bytearray(data)
+        self.touch(n)
 
     def get(self, p):
         n = self.nodes.get(posixpath.normpath(p))
@@ -282,7 +293,7 @@ class SimFS:
     def _stat_result(n):
         mode = (statmod.S_IFDIR | 0o755) if n.kind == 'dir' else (statmod.S_IFREG | 0o644)
         size = 0 if n.kind == 'dir' else len(n.data)
-        return os.stat_result((mode, n.ino, 99, 1, 0, 0, size, 0, 0, 0))
+        return os.stat_result((mode, n.ino, 99, 1, 0, 0, size, n.mtime, n.mtime, n.mtime))
 
     def _children(self, p):
         pre = p.rstrip('/') + '/'
@@ -487,6 +498,7 @@ class FakeRaw(io.RawIOBase):
             if len(node.data):
                 fs.bump('target_preexisting_truncated')
             node.data = bytearray()
+            fs.touch(node)
         self._node = node
         self._pos = len(node.data) if append else 0
         # chunking policy of this open file
@@ -600,6 +612,7 @@ class FakeRaw(io.RawIOBase):
             data.extend(b'\0' * (self._pos - len(data)))
         data[self._pos:self._pos + n] = mv[:n].tobytes()
         self._pos += n
+        fs.touch(self._node)
         if n < len(mv):
             fs.bump('short_write')
         fs.seam_events += 1
